@@ -353,3 +353,212 @@ func runSplice(r *hk.Run, rng *hk.Rand) {
 		checkSplice(r, s, method, "splice:"+shape, false)
 	}
 }
+
+// ---------- bytes arriving on an IDLE connection, then another request ----------
+//
+// Request 1 is answered by a complete message; when the client is done with it (body read to
+// EOF: the connection is in the idle pool by then) the harness tells the peer, which only THEN
+// writes the stray bytes on that connection and waits until the client has closed it (an idle
+// connection that receives bytes is dropped: "unsolicited response") - event driven; the 15 s
+// limit is reached only when the client never closes.  Then request 2 is sent.  Oracle,
+// reference-free: request 2 gets the peer's answer to it; and fork = reference on whether the
+// idle connection was dropped.  Coq: IdleCase against Model/H1Conn.v client_run.
+
+type idleObs struct {
+	First     obs
+	Second    secondResult
+	Dropped   bool // the client closed the first connection after the stray bytes
+	Hung      bool
+	PeerNotes string
+}
+
+var idleFailures int
+
+func idleStrayObserve(cl rtMaker, first, stray []byte, method string) (out idleObs) {
+	ln, err := net.Listen("tcp", "127.0.0.1:0")
+	if err != nil {
+		return idleObs{First: obs{Panic: "listen: " + err.Error()}}
+	}
+	sendStray, ready := make(chan struct{}), make(chan struct{})
+	var dropped, secondConn int32
+	var mu sync.Mutex
+	var conns []net.Conn
+	var wg sync.WaitGroup
+	wg.Add(1)
+	go func() {
+		defer wg.Done()
+		for idx := int32(1); ; idx++ {
+			c, err := ln.Accept()
+			if err != nil {
+				return
+			}
+			mu.Lock()
+			conns = append(conns, c)
+			mu.Unlock()
+			wg.Add(1)
+			go func(c net.Conn, idx int32) {
+				defer wg.Done()
+				if idx == 1 {
+					if !readHead(c) {
+						close(ready)
+						return
+					}
+					c.Write(first)
+					<-sendStray
+					c.Write(stray)
+					c.SetReadDeadline(time.Now().Add(15 * time.Second))
+					var b [1]byte
+					if _, err := c.Read(b[:]); err != nil {
+						if ne, ok := err.(net.Error); !ok || !ne.Timeout() {
+							atomic.StoreInt32(&dropped, 1)
+						}
+					}
+					c.SetReadDeadline(time.Time{})
+					close(ready)
+					if atomic.LoadInt32(&dropped) == 1 {
+						return
+					}
+					// not dropped: one byte of a possible next request was consumed above; the
+					// rest of its head follows
+				}
+				for readHead(c) {
+					atomic.CompareAndSwapInt32(&secondConn, 0, idx)
+					c.Write(freshResponse)
+				}
+			}(c, idx)
+		}
+	}()
+	rt, closeIdle := cl.mk()
+	ctx, cancel := context.WithCancel(context.Background())
+	done := make(chan idleObs, 1)
+	addr := ln.Addr().String()
+	go func() {
+		var r idleObs
+		defer func() {
+			if x := recover(); x != nil {
+				r = idleObs{First: obs{Panic: fmt.Sprint(x)}}
+			}
+			done <- r
+		}()
+		rq, _ := http.NewRequestWithContext(ctx, method, "http://"+addr+"/first", nil)
+		resp, err := rt.RoundTrip(rq)
+		if err != nil {
+			r.First = obs{Rej: "HOther", ErrText: err.Error()}
+		} else {
+			o := obs{Proto: resp.Proto, Code: resp.StatusCode, Status: resp.Status, CL: resp.ContentLength, Close: resp.Close, Framing: "FrNone"}
+			o.Chunked = len(resp.TransferEncoding) == 1 && resp.TransferEncoding[0] == "chunked"
+			body, berr := io.ReadAll(resp.Body)
+			resp.Body.Close()
+			o.Body, o.BEnd = body, classifyBodyErr(berr)
+			o.Hdr, o.Trailer = sortedHeader(resp.Header), sortedHeader(resp.Trailer)
+			r.First = o
+		}
+		close(sendStray)
+		<-ready
+		rq2, _ := http.NewRequestWithContext(ctx, "GET", "http://"+addr+"/second", nil)
+		resp2, err := rt.RoundTrip(rq2)
+		if err != nil {
+			r.Second.Err = err.Error()
+			return
+		}
+		o := obs{Proto: resp2.Proto, Code: resp2.StatusCode, Status: resp2.Status, CL: resp2.ContentLength, Close: resp2.Close, Framing: "FrNone"}
+		o.Chunked = len(resp2.TransferEncoding) == 1 && resp2.TransferEncoding[0] == "chunked"
+		b, berr := io.ReadAll(resp2.Body)
+		resp2.Body.Close()
+		o.Body, o.BEnd = b, classifyBodyErr(berr)
+		o.Hdr, o.Trailer = sortedHeader(resp2.Header), sortedHeader(resp2.Trailer)
+		r.Second.O = o
+		r.Second.Code, r.Second.Body, r.Second.Fresh = resp2.StatusCode, string(b), resp2.Header.Get("X-Fresh")
+		if berr != nil {
+			r.Second.Err = "body: " + berr.Error()
+		}
+	}()
+	select {
+	case out = <-done:
+	case <-time.After(tcpWatchdog + 25*time.Second):
+		out = idleObs{Hung: true}
+	}
+	cancel()
+	out.Dropped = atomic.LoadInt32(&dropped) == 1
+	if c := atomic.LoadInt32(&secondConn); c == 1 {
+		out.Second.OnConn = 1
+	} else if c > 1 {
+		out.Second.OnConn = 2
+	}
+	ln.Close()
+	mu.Lock()
+	for _, c := range conns {
+		c.Close()
+	}
+	mu.Unlock()
+	closeIdle()
+	wg.Wait()
+	return out
+}
+
+func checkIdleStray(r *hk.Run, first, stray []byte, method, shape string) {
+	if idleFailures >= 3 {
+		r.Count("idle.skipped-after-3-failures")
+		return
+	}
+	accepted, selfDel, complete, protoSwitch, leftover := refFinal(first, method)
+	if !accepted || !selfDel || !complete || protoSwitch || leftover != 0 {
+		r.Count("idle.skipped-not-one-complete-message")
+		return
+	}
+	in := spliceInput(append(append([]byte{}, first...), stray...), method, shape)
+	in.Kind = "idle-stray"
+	in.Shape = fmt.Sprintf("%s|first=%d", shape, len(first))
+	ref := idleStrayObserve(tcpClients[0], first, stray, method)
+	fork := idleStrayObserve(tcpClients[1], first, stray, method)
+	r.Count("idle.cells")
+	if fork.Hung {
+		idleFailures++
+		r.Fail(hk.Failure{Sig: "h1idle:hang:" + shape, What: "bytes on an idle connection, then another request: the client hangs", Input: in, Got: fork, Want: ref})
+		return
+	}
+	if !fork.Second.isFresh() {
+		idleFailures++
+		r.Fail(hk.Failure{Sig: "h1idle:second-request-got-stray-bytes:" + shape,
+			What:  fmt.Sprintf("bytes the server sent on the idle connection were attributed to the next request: got code=%d body=%q err=%q (idle connection dropped: %v)", fork.Second.Code, clip(fork.Second.Body), fork.Second.Err, fork.Dropped),
+			Input: in, Got: fork, Want: "second response = HTTP/1.1 200, X-Fresh: 1, body \"fresh\""})
+	} else if !ref.Hung && (fork.Dropped != ref.Dropped || fork.First.propKey() != ref.First.propKey()) {
+		idleFailures++
+		r.Fail(hk.Failure{Sig: fmt.Sprintf("h1idle:idle-connection-dropped(%v/%v):", fork.Dropped, ref.Dropped) + shape,
+			What: "bytes on an idle connection: the fork's client differs from net/http's client", Input: in, Got: fork, Want: ref})
+	}
+	r.Count(fmt.Sprintf("idle.dropped=%v.second-on-conn=%d", fork.Dropped, fork.Second.OnConn))
+	if fork.First.Rej == "" && fork.First.Panic == "" && fork.Second.Err == "" {
+		c := fmt.Sprintf("IdleCase %s %s %s %s %s %s", hk.CoqStr(method), coqBytes(first), coqBytes(stray), coqBytes(freshResponse), fork.First.coq(), fork.Second.O.coq())
+		r.Add(hk.Case{Coq: c, Desc: map[string]interface{}{"kind": "idle:" + shape, "input": in, "observed": fork}},
+			fmt.Sprintf("i|%s|%x|%x", method, first, stray), true)
+	}
+}
+
+func runIdleStray(r *hk.Run) {
+	firsts := []struct{ data, method, name string }{
+		{"HTTP/1.1 204 No Content\r\n\r\n", "GET", "204"},
+		{"HTTP/1.1 304 Not Modified\r\nETag: \"x\"\r\n\r\n", "GET", "304"},
+		{"HTTP/1.1 200 OK\r\nContent-Length: 0\r\n\r\n", "GET", "cl0"},
+		{"HTTP/1.1 200 OK\r\nContent-Length: 5\r\n\r\n", "HEAD", "head-cl5"},
+		{"HTTP/1.1 200 OK\r\nContent-Length: 0\r\n\r\n", "CONNECT", "connect-cl0"},
+		{"HTTP/1.1 200 OK\r\nContent-Length: 2\r\n\r\nhi", "GET", "cl2"},
+		{"HTTP/1.1 200 OK\r\nTransfer-Encoding: chunked\r\n\r\n2\r\nhi\r\n0\r\n\r\n", "GET", "chunked"},
+		{"HTTP/1.1 200 OK\r\nTransfer-Encoding: chunked\r\nTrailer: X-T\r\n\r\n2\r\nhi\r\n0\r\nX-T: 1\r\n\r\n", "GET", "chunked-trailer"},
+		{"HTTP/1.1 100 Continue\r\n\r\nHTTP/1.1 204 No Content\r\n\r\n", "GET", "100+204"},
+		{"HTTP/1.0 200 OK\r\nConnection: keep-alive\r\nContent-Length: 0\r\n\r\n", "GET", "1.0-keepalive-cl0"},
+		{"HTTP/1.1 204 No Content\r\nConnection: close\r\n\r\n", "GET", "204-close"},
+		{"HTTP/1.1 101 Switching Protocols\r\n\r\n", "GET", "101-no-upgrade"},
+	}
+	strays := []struct{ data, name string }{
+		{"HTTP/1.1 200 OK\r\nContent-Length: 6\r\n\r\nSTOLEN", "whole-response"},
+		{"X", "one-byte"},
+		{"\r\n", "blank-line"},
+		{"HTTP/1.1 100 Continue\r\n\r\n", "informational"},
+	}
+	for _, f := range firsts {
+		for _, s := range strays {
+			checkIdleStray(r, []byte(f.data), []byte(s.data), f.method, "idle:"+f.name+"+"+s.name)
+		}
+	}
+}
